@@ -237,7 +237,41 @@ fn cmd_digests(prop: &str, n: usize, threads: usize) -> ExitCode {
     ExitCode::SUCCESS
 }
 
+/// Subscriber that enables every level and discards everything: with it installed, the crate's logging
+/// statements (and the DEBUG-only block in its GC pass) are executed instead of being skipped.
+struct SinkSubscriber;
+
+impl tracing::Subscriber for SinkSubscriber {
+    fn enabled(&self, _: &tracing::Metadata<'_>) -> bool {
+        true
+    }
+    fn new_span(&self, _: &tracing::span::Attributes<'_>) -> tracing::span::Id {
+        tracing::span::Id::from_u64(1)
+    }
+    fn record(&self, _: &tracing::span::Id, _: &tracing::span::Record<'_>) {}
+    fn record_follows_from(&self, _: &tracing::span::Id, _: &tracing::span::Id) {}
+    fn event(&self, event: &tracing::Event<'_>) {
+        // visit the fields so that their Debug / Display implementations run
+        struct V(usize);
+        impl tracing::field::Visit for V {
+            fn record_debug(&mut self, _: &tracing::field::Field, value: &dyn std::fmt::Debug) {
+                use std::fmt::Write;
+                let mut s = String::new();
+                let _ = write!(s, "{:?}", value);
+                self.0 += s.len();
+            }
+        }
+        let mut v = V(0);
+        event.record(&mut v);
+    }
+    fn enter(&self, _: &tracing::span::Id) {}
+    fn exit(&self, _: &tracing::span::Id) {}
+}
+
 fn main() -> ExitCode {
+    if std::env::var("VERIF_NO_TRACING").is_err() {
+        let _ = tracing::subscriber::set_global_default(SinkSubscriber);
+    }
     let args: Vec<String> = std::env::args().collect();
     match args.get(1).map(|s| s.as_str()) {
         Some("check") => {
